@@ -2930,9 +2930,13 @@ class Evaluator:
             parts = self._format_parts(f[1][1], args, dict(named))
             if parts is not None:
                 return ("fstr", tuple(parts))
-        # shapely.centroid(x) is x.centroid
-        if f == ("ext", "shapely.centroid") and plain and len(args) == 1:
-            return ("attr", args[0], "centroid")
+        # shapely.centroid(x) is x.centroid, shapely.intersection(a, b) is a.intersection(b)
+        if f[0] == "ext" and plain and _shapely_method_form(f, tuple(args)) is not None:
+            v_ = _shapely_method_form(f, tuple(args))
+            if v_[0] == "call":
+                ev_ = self.emit("call", live, v_, n)
+                ev_.kw_order = []  # type: ignore[attr-defined]
+            return v_
         # typing.get_args(Alias) of a module-level `Alias = Literal[...]` is the tuple of its values
         if f in (("ext", "typing.get_args"), ("ext", "typing_extensions.get_args")) and plain and len(args) == 1 and args[0][0] == "global" and args[0][2] == "assign":
             try:
@@ -4146,6 +4150,24 @@ def _splice_stars(t):
     return t
 
 
+_SHAPELY_PROPERTIES = ("centroid", "area", "length", "envelope", "convex_hull", "boundary", "is_empty", "is_valid")
+_SHAPELY_BINARY = ("intersection", "union", "difference", "symmetric_difference", "intersects", "contains", "within", "touches",
+                   "overlaps", "disjoint", "distance", "equals", "covers", "covered_by", "crosses")
+
+
+def _shapely_method_form(f, args):
+    """the module-level function of shapely 2 applied to scalar geometries, in the spelling of the geometry's own attribute / method
+    (the same GEOS operation either way; vectorised use -- arrays of geometries -- does not occur in the package)"""
+    if f[0] != "ext" or not f[1].startswith("shapely.") or f[1].count(".") != 1 or any(a[0] == "star" for a in args):
+        return None
+    name = f[1].split(".")[1]
+    if name in _SHAPELY_PROPERTIES and len(args) == 1:
+        return ("attr", args[0], name)
+    if name in _SHAPELY_BINARY and len(args) == 2:
+        return ("call", ("attr", args[0], name), (args[1],), ())
+    return None
+
+
 NO_MATCH = ("global", "<no match>", "sentinel")  # the default of the next(...) a search helper is read as: equal to nothing else
 
 
@@ -4230,8 +4252,8 @@ def fold_sub(t):
         t = _splice_stars(t)
     if t and t[0] == "bin" and t[1] == "+" and t[2][0] == "list" and t[3][0] == "list":
         return ("list", t[2][1] + t[3][1])  # [a] + [b] is [a, b]
-    if t and t[0] == "call" and t[1] == ("ext", "shapely.centroid") and len(t[2]) == 1 and not t[3]:
-        return ("attr", t[2][0], "centroid")  # (a function picked from a table and applied: the same normal form as in a direct call)
+    if t and t[0] == "call" and t[1][0] == "ext" and not t[3] and _shapely_method_form(t[1], t[2]) is not None:
+        return _shapely_method_form(t[1], t[2])  # (a function picked from a table and applied: the same normal form as in a direct call)
     if t and t[0] in ("and", "or") and len(t) == 2 and any(x in (TRUE, FALSE) for x in t[1]):
         # a test decided by the substitution (`lower is not None` with lower=0): the connective is rebuilt without it
         return fold_sub(AND(*t[1]) if t[0] == "and" else OR(*t[1]))
